@@ -15,6 +15,7 @@ import (
 	"runtime"
 	"strings"
 	"sync"
+	"sync/atomic"
 	"testing"
 	"time"
 
@@ -462,6 +463,8 @@ func agreesWithRef(s settings, tr *trace) bool {
 
 // ---- one case, shared by all units ------------------------------------------
 
+var refDiffer atomic.Int64
+
 func reactionsClass(n int) string {
 	if n >= 3 {
 		return "reactions=3+"
@@ -485,6 +488,12 @@ func evaluate(r *ev.Recorder, k kase, fingerprint func() string) (string, *trace
 		return cerr.Error(), &tr
 	}
 	r.Class(reactionsClass(len(tr.Reacts)))
+	if len(tr.Reacts) == 0 && v.nonQualFlips >= 3 {
+		r.Class("flapping-without-reaction")
+	}
+	if len(tr.Reacts) >= 2 && k.S.Cooldown > 0 {
+		r.Class("reaction-after-a-cool-down")
+	}
 	if v.obligations > 0 {
 		r.ClassN("completeness-obligations", int64(v.obligations))
 	}
@@ -495,8 +504,14 @@ func evaluate(r *ev.Recorder, k kase, fingerprint func() string) (string, *trace
 		r.Class("ref-agree")
 	} else {
 		r.Class("ref-differ")
+		if os.Getenv("VERIF_C20_TIGHT") == "1" { // opt-in pinned-behaviour mode, not part of the property
+			return "VERIF_C20_TIGHT: reactions differ from the tight reference automaton (reaction exactly at the max(N,2)-th observation of a run once the period has elapsed since its first observation)", &tr
+		}
+		if refDiffer.Add(1) == 1 {
+			r.Note(fmt.Sprintf("informational: the watcher no longer reacts exactly where the tight reference automaton does (first at %+v); allowed by the statement, not a violation", k.repr(&tr)))
+		}
 	}
-	if v.qualifying > 0 && v.nonQualFlips > 0 {
+	if (len(tr.Reacts) > 0 || v.obligations > 0) && v.nonQualFlips > 0 {
 		r.Class("nontrivial")
 		r.NonTrivial(fingerprint(), func() any { return k.repr(&tr) })
 	}
@@ -623,7 +638,8 @@ func genRuns(n int) *rapid.Generator[[]bool] {
 			rapid.IntRange(max(1, n-1), n+1),
 			rapid.IntRange(n, n+8),
 			rapid.IntRange(1, 25),
-		), 1, 40).Draw(t, "runs")
+			rapid.IntRange(8, 40),
+		), 1, 60).Draw(t, "runs")
 		var out []bool
 		st := first
 		for _, l := range lens {
